@@ -101,7 +101,7 @@ def split_tuple_lines(out: str):
     return res
 
 
-def validate_traces(recs, name: str, *, module='TraceHands.tla', cfg='TraceHands.cfg', jobs=16, timeout=1800,
+def validate_traces(recs, name: str, *, prop='ALL', module='TraceHands.tla', cfg='TraceHands.cfg', jobs=16, timeout=1800,
                     max_bytes=12_000_000, envvar='TRACE'):
     """Run the trace spec over the records.  Returns dict(done={tid: steps}, mismatches=[(tid, step, clause, text)],
     states, transitions, wall, outputs)."""
@@ -110,7 +110,7 @@ def validate_traces(recs, name: str, *, module='TraceHands.tla', cfg='TraceHands
 
     def one(j):
         path, tids = shards[j]
-        rc, out, wall = run_tlc(module, cfg, {envvar: path}, os.path.join(d, f'meta_{j}'), timeout=timeout)
+        rc, out, wall = run_tlc(module, cfg, {envvar: path, 'PROP': prop}, os.path.join(d, f'meta_{j}'), timeout=timeout)
         with open(os.path.join(d, f'tlc_{j}.log'), 'w') as f:
             f.write(out)
         return j, rc, out, wall, tids
@@ -133,9 +133,10 @@ def validate_traces(recs, name: str, *, module='TraceHands.tla', cfg='TraceHands
             if m:
                 done[tids[int(m.group(1)) - 1]] = int(m.group(2))
                 continue
-            m = re.match(r'<<\s*"MISMATCH",\s*(\d+),\s*(\d+),\s*"([^"]*)",\s*(.*)>>$', t, re.S)
+            m = re.match(r'<<\s*"MISMATCH",\s*(\d+),\s*(\d+),\s*"([^"]*)",\s*"([^"]*)",\s*(\{[^}]*\}),\s*(.*)>>$', t, re.S)
             if m:
-                mism.append((tids[int(m.group(1)) - 1], int(m.group(2)), m.group(3), m.group(4)))
+                mism.append({'tid': tids[int(m.group(1)) - 1], 'step': int(m.group(2)), 'clause': m.group(3), 'op': m.group(4),
+                             'names': sorted(re.findall(r'"([^"]*)"', m.group(5))), 'info': m.group(6).strip()})
     missing = [r['tid'] for r in recs if r['tid'] not in done]
     if missing:
         raise MachineryError(f'{len(missing)} traces without a verdict (e.g. tid {missing[:5]}); see {d}')
